@@ -545,3 +545,260 @@ func TestVerifC09LateTargetAfterReattach(t *testing.T) {
 		run.Floor("all_cases_conclusive", 1)
 	}
 }
+
+// ---------------------------------------------------------------- retried tunnel id through the same forwarding node
+//
+// Three nodes on one store. The cross-node endpoints of the source nodes are harness
+// listeners that decode the TargetReady frame a forwarding node sends (so "node B routed
+// the target to source node X" is observed AT node X's endpoint).
+//  1. source opens T on node-a (waiting); a target arrives at node-b: B resolves T and
+//     forwards to node-a's endpoint; that attempt then ends (endpoint and target close,
+//     B has marked T closed — observed through SessionManager.IsTunnelClosed).
+//  2. node-a goes away (its lifecycle ends, record removed); the source retries the SAME
+//     tunnel id on node-c: a new bridge waits there, every node resolves T to node-c.
+//  3. a target arrives at node-b again: it must be routed to node-c (TargetReady for T
+//     from node-b reaches node-c's endpoint).
+
+type c09Ready struct {
+	tunnelID, fromNode string
+	err                error
+}
+
+type c09Endpoint struct {
+	addr   string
+	frames chan c09Ready
+	stop   func()
+}
+
+func c09NewEndpoint() (*c09Endpoint, error) {
+	l, err := net.Listen("tcp", "127.0.0.1:0")
+	if err != nil {
+		return nil, err
+	}
+	ep := &c09Endpoint{addr: l.Addr().String(), frames: make(chan c09Ready, 16), stop: func() { l.Close() }}
+	go func() {
+		for {
+			c, err := l.Accept()
+			if err != nil {
+				return
+			}
+			go func(c net.Conn) {
+				defer c.Close() // the attempt ends right after the frame was read
+				tc, ok := c.(*net.TCPConn)
+				if !ok {
+					return
+				}
+				tc.SetReadDeadline(time.Now().Add(10 * time.Second))
+				_, ft, data, err := session.ReadFrame(tc)
+				if err != nil {
+					ep.frames <- c09Ready{err: err}
+					return
+				}
+				if ft != session.FrameTypeTargetReady {
+					ep.frames <- c09Ready{err: fmt.Errorf("frame type 0x%02x", ft)}
+					return
+				}
+				id, node, derr := session.DecodeTargetReadyMessage(data)
+				ep.frames <- c09Ready{tunnelID: id, fromNode: node, err: derr}
+			}(c)
+		}
+	}()
+	return ep, nil
+}
+
+// await returns the next frame (nil on the 5 s watchdog).
+func (ep *c09Endpoint) await() *c09Ready {
+	select {
+	case r := <-ep.frames:
+		return &r
+	case <-time.After(5 * time.Second):
+		return nil
+	}
+}
+
+func TestVerifC09RetryThroughSameForwarder(t *testing.T) {
+	vk.Quiet()
+	run := vk.Start(t, "C09", "retry-through-same-forwarder")
+	defer run.Finish()
+	run.Rule("per case: store (memory | redis per node) x tunnel-id form; nodes a,b,c; source waits on a, target via b is forwarded to a's endpoint and that attempt ends (b marked the tunnel closed); a goes away; " +
+		"the source retries the same tunnel id on c; a target via b must be routed to c (TargetReady from node-b observed at c's endpoint), and every node's RoutingTable resolves the id to node-c; distinct = (store, id form, second target's client connection kind)")
+	r := run.Rand("retry")
+	n := run.Pick(24, 300)
+	for i := 0; i < n && run.Violations() < 8; i++ {
+		store := []string{"memory", "redis"}[i%2]
+		tid := fmt.Sprintf("tcp-tunnel-%d-%d", 1700000000000000000+r.Int63n(1<<40), 20000+i)
+		form := "ascii"
+		if i%4 >= 2 {
+			tid = fmt.Sprintf("重试/%d:%d", i, r.Int63())
+			form = "unicode"
+		}
+		detail := map[string]any{"case": i, "store": store, "tunnel_id": tid}
+		run.Case(store+"|"+form, detail)
+		c09RetryCase(t, run, store, tid, detail)
+		run.Eval(1)
+		run.Distinct(store + "|" + form)
+	}
+	var inconclusive int64
+	for _, k := range []string{"r_world_setup_failed", "r_setup_failed", "r_watchdog"} {
+		inconclusive += run.Counter(k)
+	}
+	if inconclusive > 0 {
+		run.Count("inconclusive_cases", inconclusive)
+		run.Floor("all_cases_conclusive", 1)
+	}
+	for _, s := range []string{"memory", "redis"} {
+		run.Floor("first_attempt_forwarded_and_ended|"+s, int64(n/3)) // window: b has a closed-memo for the id
+		run.Floor("retry_routed_through_same_forwarder|"+s, int64(n/3))
+	}
+}
+
+func c09RetryCase(t *testing.T, run *vk.Run, store, tid string, detail map[string]any) {
+	if !c09AwaitLifecycleEnd() {
+		run.Count("r_watchdog", 1)
+		return
+	}
+	w, err := c09NewXWorld(t, store, 3)
+	if err != nil {
+		run.Count("r_world_setup_failed", 1)
+		return
+	}
+	defer w.cleanup()
+	ctx := context.Background()
+	a, b, c := w.nodes[0], w.nodes[1], w.nodes[2]
+	fail := func(what string, err any) {
+		run.Count("r_setup_failed", 1)
+		detail["setup_error"] = fmt.Sprintf("%s: %v", what, err)
+		run.Observe("last_r_setup_error", detail)
+	}
+	epA, err := c09NewEndpoint()
+	if err != nil {
+		fail("endpoint", err)
+		return
+	}
+	defer epA.stop()
+	epC, err := c09NewEndpoint()
+	if err != nil {
+		fail("endpoint", err)
+		return
+	}
+	defer epC.stop()
+	if err := a.Routing.RegisterNodeAddress("node-a", epA.addr); err != nil {
+		fail("register addr", err)
+		return
+	}
+	if err := c.Routing.RegisterNodeAddress("node-c", epC.addr); err != nil {
+		fail("register addr", err)
+		return
+	}
+	src, tgt := a.NewClient(""), a.NewClient("")
+	mapping, err := a.CC.CreatePortMapping(&models.PortMapping{ListenClientID: src.ClientID, TargetClientID: tgt.ClientID, Protocol: models.ProtocolTCP,
+		SourcePort: 18080, TargetHost: "10.9.8.7", TargetPort: 443, SecretKey: "mk-" + tid, Status: models.MappingStatusActive})
+	if err != nil || mapping == nil {
+		fail("mapping", err)
+		return
+	}
+	open := func(n *miniNode, cl *miniClient, what string) (*miniClient, error) {
+		cn := n.MustConnect("")
+		if ok, err := cn.Login(cl.ClientID, cl.Secret, "tunnel"); !ok {
+			fail(what+" login", err)
+			return nil, fmt.Errorf("login")
+		}
+		_, oerr := c09OpenTunnel(cn, mapping.ID, tid, mapping.SecretKey)
+		return cn, oerr
+	}
+	resolvesTo := func(node string, phase string) bool {
+		for _, nd := range []*miniNode{b, c} {
+			st, lerr := nd.Routing.LookupWaitingTunnel(ctx, tid)
+			if lerr != nil || st == nil {
+				run.Violation("C09:retry|lost-while-waiting|store="+store+"|phase="+phase, map[string]any{"case": detail, "lookup_from": nd.NodeID, "error": fmt.Sprint(lerr)})
+				return false
+			}
+			if st.SourceNodeID != node || st.MappingID != mapping.ID || st.TargetClientID != tgt.ClientID {
+				run.Violation("C09:retry|wrong-record|store="+store+"|phase="+phase, map[string]any{"case": detail, "lookup_from": nd.NodeID, "got": fmt.Sprintf("%+v", *st), "want_node": node})
+				return false
+			}
+		}
+		return true
+	}
+	// 1. first attempt: source on a, target via b, forwarded to a's endpoint, then it ends
+	if _, err := open(a, src, "source@a"); a.SM.GetTunnelBridgeByMappingID(mapping.ID, 0) == nil {
+		fail("source open on a", err)
+		return
+	}
+	if !resolvesTo("node-a", "first-attempt") {
+		return
+	}
+	t1, aerr := open(b, tgt, "target@b#1")
+	if t1 == nil {
+		return
+	}
+	if !coreerrors.IsCode(aerr, coreerrors.CodeTunnelModeSwitch) {
+		// the plain first attempt was not forwarded: not the scenario of this monitor
+		// (TestVerifC09CrossNodeFailedForward covers failing attempts)
+		fail("first attempt not forwarded", aerr)
+		return
+	}
+	if fr := epA.await(); fr == nil || fr.err != nil || fr.tunnelID != tid || fr.fromNode != "node-b" {
+		fail("first TargetReady at a's endpoint", fmt.Sprintf("%+v", fr))
+		return
+	}
+	t1.hc.Close() // the target side of the first attempt goes away too
+	marked := false
+	for k := 0; k < 500; k++ {
+		if b.SM.IsTunnelClosed(tid) {
+			marked = true
+			break
+		}
+		time.Sleep(10 * time.Millisecond)
+	}
+	if !marked {
+		run.Count("r_watchdog", 1)
+		return
+	}
+	run.Count("first_attempt_forwarded_and_ended|"+store, 1)
+	// 2. node-a goes away; the source retries the same tunnel id on node-c
+	a.Close()
+	if !c09AwaitLifecycleEnd() {
+		run.Count("r_watchdog", 1)
+		return
+	}
+	if st, err := b.Routing.LookupWaitingTunnel(ctx, tid); err == nil && st != nil {
+		run.Violation("C09:retry|stale-after-bridge-end|store="+store, map[string]any{"case": detail, "got": fmt.Sprintf("%+v", *st)})
+		return
+	}
+	if _, err := open(c, src, "source@c"); c.SM.GetTunnelBridgeByMappingID(mapping.ID, 0) == nil {
+		fail("source retry on c", err)
+		return
+	}
+	if !resolvesTo("node-c", "after-retry") {
+		return
+	}
+	// 3. a target arrives at node-b again: must be routed to node-c, where the source waits
+	t2, aerr2 := open(b, tgt, "target@b#2")
+	if t2 == nil {
+		return
+	}
+	var got *c09Ready
+	if coreerrors.IsCode(aerr2, coreerrors.CodeTunnelModeSwitch) {
+		got = epC.await()
+	} else {
+		select { // not forwarded according to b: look without waiting
+		case fr := <-epC.frames:
+			got = &fr
+		default:
+		}
+	}
+	if c.SM.GetTunnelBridgeByMappingID(mapping.ID, 0) == nil {
+		run.Count("r_source_gone_on_c", 1)
+		return
+	}
+	if got != nil && got.err == nil && got.tunnelID == tid && got.fromNode == "node-b" {
+		run.Count("retry_routed_through_same_forwarder|"+store, 1)
+	} else {
+		run.Violation("C09:retry|target-not-routed-to-waiting-source|store="+store+"|via=node-b", map[string]any{"case": detail,
+			"forwarder_answer": fmt.Sprint(aerr2), "frame_at_node_c": fmt.Sprintf("%+v", got),
+			"note": "the source is waiting on node-c and every RoutingTable resolves the id to node-c, but node-b did not route the target connection there"})
+		return
+	}
+	resolvesTo("node-c", "after-second-attempt")
+}
